@@ -21,7 +21,11 @@ Inductive c07_case :=
 | MvCase (K : smv) (w : written) (r : rd_mv)
 | FcCase (objs attrs : list str) (c : fcv) (w : written) (r : rd_fc)
 | PcCase (c : pcv) (w : written) (r : rd_pc)
-| LatCase (objs attrs : list str) (L : latv) (w : written) (r : rd_lat).
+| LatCase (objs attrs : list str) (L : latv) (obs : rd_lat) (w : written) (r : rd_lat).
+      (* L : the concepts of the lattice object with the cover relation, top and bottom that the ORDER of
+             these concepts defines (computed by the harness from the extents, re-checked by
+             lat_admissibleb); obs : children_dict / top / bottom as the object itself reported them
+             before it was written (after whatever history of add / remove it went through) *)
 
 Definition kind_of (e : serr) : nat :=
   match e with EKey => 1 | EValue => 2 | EAssert => 6 | EType => 7 | EOther => 11 end.
@@ -155,7 +159,7 @@ Definition pc_check (c : pcv) (w : written) (r : rd_pc) : nat :=
 
 (* ---------------------------------------------------------------- lattices *)
 
-Definition lat_check (objs attrs : list str) (L : latv) (w : written) (r : rd_lat) : nat :=
+Definition lat_check (objs attrs : list str) (L : latv) (obs : rd_lat) (w : written) (r : rd_lat) : nat :=
   let same :=
       written_eqb w (w_of_jv (write_lattice_json objs attrs L))
       && match w with
@@ -179,6 +183,12 @@ Definition lat_check (objs attrs : list str) (L : latv) (w : written) (r : rd_la
                               cs' (lv_concepts L)
                    && children_eqb ch' (lv_children L)
                    && Nat.eqb t' (lv_top L) && Nat.eqb b' (lv_bottom L)
+                   (* ... and the object that was written was itself consistent with its order *)
+                   && match obs with
+                      | RLat _ ch t b => children_eqb ch (lv_children L)
+                                         && Nat.eqb t (lv_top L) && Nat.eqb b (lv_bottom L)
+                      | RLatErr _ => false
+                      end
                | _ => false
                end in
   code_of same ok.
@@ -189,7 +199,7 @@ Definition c07_check (c : c07_case) : nat :=
   | MvCase K w r => mv_check K w r
   | FcCase objs attrs c w r => fc_check objs attrs c w r
   | PcCase c w r => pc_check c w r
-  | LatCase objs attrs L w r => lat_check objs attrs L w r
+  | LatCase objs attrs L obs w r => lat_check objs attrs L obs w r
   end.
 
 Inductive c07_shown :=
@@ -213,7 +223,7 @@ Definition c07_show (c : c07_case) : c07_shown :=
   | PcCase c w _ =>
       ShPc (pc_admissibleb c) (w_of_jv (pc_to_dict c))
            (match w with WJson v => Some (rd_pc_of (pc_from_dict v)) | _ => None end)
-  | LatCase objs attrs L w _ =>
+  | LatCase objs attrs L _ w _ =>
       ShLat (lat_admissibleb objs attrs L) (w_of_jv (write_lattice_json objs attrs L))
             (match w with WJson v => Some (read_lattice_json v) | _ => None end)
   end.
